@@ -214,6 +214,13 @@ def run_unit(unit, ctx):
         got = monitors.vec_dict(res)
         _compare(R, got, ref, f"compiled:{tag}", p)
         R.stats.inc(f"compiled_points_checked_{tag}")
+        if pi == 0:
+            kept19 = (res, res.data.copy())
+        elif pi == 6:
+            R.stats.inc("retained_result_checks")
+            import numpy as _np
+            if not _np.array_equal(kept19[0].data, kept19[1]):
+                R.add([K.V("compiled:earlier-result-changed", f"a State returned by an earlier call of the compiled strapdown model changed when the model was called again ({tag})")])
         if pi % 10 == 3 and not use_array:
             # the same State and Control objects again, after a new IMU sample and orientation were
             # written into their buffers in place
